@@ -243,8 +243,9 @@ pub fn c12(seed: u64, n: usize) {
         let last = *steps.last().unwrap();
         let park = Isometry3::from_parts(Translation3::from(last.translation.vector + Vector3::new(0.0, 0.0, 0.03)), last.rotation);
         // obstacle layouts: free, grazing (next to the stroke), blocking (plate across the stroke)
-        let layout = done % 5;
-        let include = r.chance(0.6);
+        let layout = [0usize, 1, 2, 3, 4, 4][done % 6];
+        // (the grazed first step is visible in the result only when interpolated waypoints are returned)
+        let include = layout == 4 || r.chance(0.6);
         let p_step = *r.pick(&[0.01, 0.02, 0.05]);
         let p_cost = *r.pick(&[3f64.to_radians(), 6f64.to_radians(), 0.3]);
         let p_coef = match r.below(3) { 0 => DEFAULT_TRANSITION_COSTS, 1 => [*r.pick(&[0.5, 2.0, 4.0]); 6],
@@ -285,9 +286,20 @@ pub fn c12(seed: u64, n: usize) {
                         if li + 2 < path.len() {
                             let w1 = path[li + 1].joints;
                             let at = k.kws.forward_with_joint_poses(&w1)[5];
-                            for _ in 0..60 {
-                                let c = at * nalgebra::Point3::new(r.range(-0.1, 0.1), r.range(-0.1, 0.1), r.range(-0.05, 0.2));
-                                let h = *r.pick(&[0.004f32, 0.008, 0.015]);
+                            let at0 = k.kws.forward_with_joint_poses(&path[li].joints)[5];
+                            let verts: Vec<nalgebra::Point3<f64>> = k.kws.body.tool.as_ref().unwrap_or(&k.kws.body.joint_meshes[5]).vertices().iter()
+                                .map(|v| nalgebra::Point3::new(v.x as f64, v.y as f64, v.z as f64)).collect();
+                            for attempt in 0..200 {
+                                // a cube centred on a vertex of the tool as it stands at the first step, smaller than the step
+                                // that vertex makes (so the landing pose and the second step stay clear); or anywhere near
+                                let (c, h) = if attempt % 2 == 0 && !verts.is_empty() {
+                                    let v = verts[r.below(verts.len())];
+                                    let (p1, p0) = (at * v, at0 * v);
+                                    let m = (p1 - p0).norm();
+                                    (p1, ((0.4 * m).min(0.015).max(0.001)) as f32)
+                                } else {
+                                    (at * nalgebra::Point3::new(r.range(-0.1, 0.1), r.range(-0.1, 0.1), r.range(-0.05, 0.2)), *r.pick(&[0.004f32, 0.008, 0.015]))
+                                };
                                 k.kws.body.collision_environment.push(CollisionBody { mesh: box_mesh([h, h, h], [0.0; 3], false), pose: Isometry3::translation(c.x as f32, c.y as f32, c.z as f32) });
                                 let good = k.kws.collides(&w1) && !k.kws.collides(&from) && path.iter().enumerate().all(|(i, w)| i == li + 1 || !k.kws.collides(&w.joints));
                                 if good { break; }
